@@ -208,6 +208,8 @@ var c01Heads = []string{"f", "tf", "m", "mm", "mth", "a", "b", "S", "and", "or",
 
 var c01Atoms = []string{`"日本語"`, `"é😀"`, `doc:"日本語ですね"`, `gotags:"json:\"é😀😀\""`, "e:0", `([] \ 3)`, `(1 \ 2)`, `(a b \ c)`, `("s" \ [])`, "1", "-1", "0", "9223372036854775807", "-9223372036854775808", "1.5", "1e308", "-0.0", `"s"`, `""`, "#c", "nil", "true", "a", "b", "a:", ".a", "a.b", "a.b.c", "$a", "#a", "[]", "[1 2]", "()", "(quote x)", "{}", "{a = 1}", "(hash a: 1)", "(hash)", "(list 1 2)", "(fn [x] x)", "(fn [] (break))", "(raw \"ab\")", "[a b]", "[1 [2 [3]]]", "(list)", "%x", "^(a ~b)", "~x", "~@x", "lp:", "& rest", "[& r]", "[a & ]", "[#x]", "(def a 1)", "(and)", "(let)", "(cond)", "(for)", "(fn)", "x y", "\"\\x00\"", "(str2sym \"\")", "(str2sym \"a b\")", "(gensym)", "(read \"\")", "(read \" \")", "(read \"(\")", ".a", ".a.b", "(field .a 1)", "(hash .a 1)", "(macexpand nil)", "(eval nil)", "(apply f nil)"}
 
+var c01SecondAtoms = []string{`"日本語"`, `([] \ 3)`, "-1", "9223372036854775807", "nil", "a:", ".a", "a.b", "[]", "()", "#a", "$a"}
+
 func genHostile(t *rapid.T, depth int) string {
 	k := rapid.IntRange(0, 9).Draw(t, "hk")
 	if depth >= 3 || k < 3 {
@@ -425,7 +427,7 @@ func TestC01(t *testing.T) {
 			p.reportEnum("text", crashCase{Text: k.Text}, &ev.Failure{Sig: "host-process-died:" + site, Msg: fmt.Sprintf("evaluating %q kills the host process (fatal runtime error, not recoverable)", clip(k.Text, 300)), Expected: "a value or an error", Observed: k.Output})
 		}
 	}
-	r.SetRule(fmt.Sprintf("tokens: every string of <=L tokens over a %d-token alphabet (brackets, sigils, quote characters, numbers, strings, symbols, dotted and colon forms, special-form names, comment and string openers), joined with single spaces and again glued without spaces - exhaustive for L=2 (quick) / L=3 (thorough), rapid-sampled for lengths up to 7. headatom: every one of those heads applied to every hostile atom (non-ASCII strings and field attributes, dotted pairs, boundary numbers, sigils, ...) - exhaustive; thorough: to every pair of atoms. hostile: grammar-generated forms whose head is any of %d special forms, builders and builtins with 0-4 arguments of the wrong shape (atoms of every kind, empty and malformed special forms, cyclic data, lazy arguments, packages, struct instances, typed func / method declarations and calls of them), nested to depth 3, in (), [] and {} brackets, optionally after a prelude defining such values. mutant: tests/*.zy scripts cut to a window and mutated 1-4 times (delete, duplicate, insert hostile token, change a bracket, truncate, splice from another script, replace an atom, flip a byte). Every text goes through 9 entry points in fresh interpreters: EvalString, LoadString+Run, ParseTokens (+ printing the forms), ParseTokens+EvalExpressions, (macexpand text), (eval (quote text)), (eval (read \"text\")), the REPL's infix line wrap {text}, and a second evaluation on the same interpreter after Clear(). Oracle: every call returns (value or error; the result is printed); a panic reaching the harness or a call that does not return under the %d-step VM budget is a violation. Non-trivial: >=2 tokens and not a verbatim corpus text. Distinct by text.", len(c01Tokens), len(c01Heads), c01Budget))
+	r.SetRule(fmt.Sprintf("tokens: every string of <=L tokens over a %d-token alphabet (brackets, sigils, quote characters, numbers, strings, symbols, dotted and colon forms, special-form names, comment and string openers), joined with single spaces and again glued without spaces - exhaustive for L=2 (quick) / L=3 (thorough), rapid-sampled for lengths up to 7. headatom: every one of those heads applied to every hostile atom (non-ASCII strings and field attributes, dotted pairs, boundary numbers, sigils, ...) - exhaustive; thorough: additionally with a second argument from a list of 12 atoms. hostile: grammar-generated forms whose head is any of %d special forms, builders and builtins with 0-4 arguments of the wrong shape (atoms of every kind, empty and malformed special forms, cyclic data, lazy arguments, packages, struct instances, typed func / method declarations and calls of them), nested to depth 3, in (), [] and {} brackets, optionally after a prelude defining such values. mutant: tests/*.zy scripts cut to a window and mutated 1-4 times (delete, duplicate, insert hostile token, change a bracket, truncate, splice from another script, replace an atom, flip a byte). Every text goes through 9 entry points in fresh interpreters: EvalString, LoadString+Run, ParseTokens (+ printing the forms), ParseTokens+EvalExpressions, (macexpand text), (eval (quote text)), (eval (read \"text\")), the REPL's infix line wrap {text}, and a second evaluation on the same interpreter after Clear(). Oracle: every call returns (value or error; the result is printed); a panic reaching the harness or a call that does not return under the %d-step VM budget is a violation. Non-trivial: >=2 tokens and not a verbatim corpus text. Distinct by text.", len(c01Tokens), len(c01Heads), c01Budget))
 	r.Assume("texts containing /dev/ or /proc/ are skipped (an include of /dev/zero is a hang that says nothing about the interpreter)", "makeArray refuses sizes > 65536 in the harness (allocation bombs); shell, channel and file-writing builtins are error stubs", "budget exhaustion is discarded, never a verdict; a call is only reported as not returning after 30 s and, re-run, 120 s")
 
 	// (1) exhaustive token strings
@@ -478,7 +480,8 @@ func TestC01(t *testing.T) {
 		for _, a1 := range c01Atoms {
 			seconds := []string{""}
 			if ev.Thorough() {
-				seconds = append(seconds, c01Atoms...)
+				// a second argument from a short list of the most hostile atoms (all pairs would be ~1 M texts x 9 entry points)
+				seconds = append(seconds, c01SecondAtoms...)
 			}
 			for _, a2 := range seconds {
 				hidx++
@@ -496,7 +499,7 @@ func TestC01(t *testing.T) {
 			}
 		}
 	}
-	r.ExhaustiveSpace("every head applied to every hostile atom (thorough: every pair of atoms) (sharded)", hcount)
+	r.ExhaustiveSpace("every head applied to every hostile atom (thorough: plus a second argument from 12 atoms) (sharded)", hcount)
 
 	p.rapidSub("tokens", ev.Scale(1500, 300000), func(t *rapid.T) {
 		n := rapid.IntRange(3, 7).Draw(t, "ntok")
